@@ -11,7 +11,9 @@ RULE = ('(a) chains of every container kind at depths limit-2 .. limit+2 (plus m
         '(first, middle, last) x mutation (delete before, delete after, clear, append, replace), each cell in a forked child; '
         "(b') unflatten / tree_unflatten reading the leaves from a list / deque / dict view that a custom node's unflatten function "
         'mutates (same mutations, after the first / middle / last leaf), forked; '
-        '(c) treespec methods and API functions x argument-type confusions, each in a forked child; (d) composed treespecs of '
+        '(c) treespec methods and API functions x argument-type confusions, each in a forked child; '
+        "(c') treespecs restored by __setstate__ from states with one field of one node record changed (arity, counts, kind), "
+        'records dropped, keyed nodes with fewer sub-trees than keys x 20 treespec methods, forked; (d) composed treespecs of '
         'depth 1001 .. 20 000 (thorough: 200 000) x every treespec method, forked; correspondence: loop machine and walker '
         'machine on the same requests; thorough: all forked cells again on an ASan+UBSan build of the engine; '
         'non-trivial = the cell mutates a container, confuses an argument or exceeds the depth limit')
@@ -24,7 +26,7 @@ SETUP_LINES = []
 TEARDOWN_LINES = []
 IMPL_TIMEOUT = 6000
 ASAN_TIER = 'thorough'          # engine: run the cases of ASAN_KINDS again under the sanitizer build
-ASAN_KINDS = ['mutate', 'unflat', 'confuse', 'deepspec', 'selfref', 'malformed']
+ASAN_KINDS = ['mutate', 'unflat', 'hostile', 'confuse', 'deepspec', 'selfref', 'malformed']
 
 TRAVERSALS = ['flatten', 'flatten_with_path', 'flatten_with_accessor', 'iter', 'leaves', 'structure', 'paths', 'accessors',
               'map', 'map_with_path', 'flatten_up_to', 'broadcast_prefix', 'from_collection']
@@ -85,6 +87,11 @@ def generate(gen, tier):
     for i in range(0, len(mcells), 24):
         cases.append({'lines': [], 'o': {'kind': 'malformed', 'cells': [list(c) for c in mcells[i:i + 24]]}})
     # (c) argument confusion
+    # (c') treespec states that pickle would never produce, handed to __setstate__ (one field of one node record changed:
+    # arity, counts, kind; records dropped), then every treespec method on the result - forked
+    for ti in range(4 if tier == 'quick' else 6):
+        for nil in ((False,) if tier == 'quick' else (False, True)):
+            cases.append({'lines': [], 'o': {'kind': 'hostile', 'tree': ti, 'nil': nil}})
     cases.append({'lines': [], 'o': {'kind': 'confuse', 'seed': rng.randrange(10**9), 'n': 400 if tier == 'quick' else 6000}})
     # (d) deep treespecs
     depths = [1001, 1002, 2000, 5000, 20000] + ([60000, 200000] if tier != 'quick' else [])
@@ -123,7 +130,7 @@ def oracle(impl, o):
         if status != 'ok':
             return [{'key': f'{kind}-crash', 'what': f'{o["req"]}: {status}', 'stderr': text[-600:]}]
         return []
-    return {'depth': _depth, 'selfref': _selfref, 'mutate': _mutate, 'unflat': _unflat, 'confuse': _confuse, 'deepspec': _deepspec,
+    return {'depth': _depth, 'selfref': _selfref, 'mutate': _mutate, 'unflat': _unflat, 'hostile': _hostile, 'confuse': _confuse, 'deepspec': _deepspec,
             'malformed': _malformed}[kind](impl, o)
 
 
@@ -626,6 +633,70 @@ def _malformed(impl, o):
         elif status == 'ok' and ('InternalError' in text or 'SystemError' in text):
             fails.append({'key': f'malformed-internal-{trav}', 'what': f'{trav} over a custom node whose flatten function returns '
                           f'{shape}: {text[:120]}', 'cell': [trav, shape]})
+    return fails
+
+
+def _hostile(impl, o):
+    import collections
+    import os
+    import pickle
+    import signal
+    import optree
+    P = collections.namedtuple('P', ['x', 'y'])
+    trees = [{'a': 1, 'b': (2, 3)}, [1, (2, None), collections.OrderedDict(z=3, y=4)], P(1, [2, 3]),
+             collections.defaultdict(int, {'k': 1, 'j': 2}), collections.deque([1, 2], maxlen=3), (1, [2, [3, 4]])]
+    t, nil = trees[o['tree']], o['nil']
+    spec = optree.tree_structure(t, none_is_leaf=nil)
+    nodes, _, ns = spec.__getstate__()
+    nodes = [list(n) for n in nodes]
+    states = []
+    for i, n in enumerate(nodes):
+        for fld, vals in ((1, [n[1] + 1, n[1] + 7, 0, 64, 1000]), (5, [0, n[5] + 3]), (6, [1, n[6] + 5]), (0, [2, 3, 4, 6, 7, 8, 10])):
+            for v in vals:
+                if v != n[fld]:
+                    m = [list(x) for x in nodes]
+                    m[i][fld] = v
+                    states.append((f'record {i}: field {("kind", "arity", "", "", "", "num_leaves", "num_nodes")[fld]} = {v}',
+                                   (tuple(tuple(x) for x in m), nil, ns)))
+    states.append(('first record dropped', (tuple(tuple(x) for x in nodes[1:]), nil, ns)))
+    states.append(('only the root record', ((tuple(nodes[-1]),), nil, ns)))
+    # a keyed node with as many keys as its arity says, but fewer completed sub-trees in front of it
+    for kind, data in ((4, ['k%d' % j for j in range(8)]), (7, ['k%d' % j for j in range(64)])):
+        states.append((f'kind {kind} of arity {len(data)} after one leaf',
+                       (((1, 0, None, None, None, 1, 1), (kind, len(data), data, None, None, len(data), 2, data) if kind == 4 else
+                         (kind, len(data), data, None, None, len(data), 2)), nil, ns)))
+    methods = {
+        'repr': repr, 'str': str, 'hash': hash, 'eq': lambda s: s == s, 'paths': lambda s: s.paths(),
+        'accessors': lambda s: s.accessors(), 'entries': lambda s: s.entries(), 'children': lambda s: s.children(),
+        'unflatten': lambda s: s.unflatten(range(s.num_leaves)),
+        'flatten_up_to': lambda s: s.flatten_up_to(s.unflatten(range(s.num_leaves))), 'compose': lambda s: s.compose(s),
+        'walk': lambda s: s.walk(range(s.num_leaves)), 'traverse': lambda s: s.traverse(range(s.num_leaves)),
+        'pickle': lambda s: pickle.loads(pickle.dumps(s)), 'is_prefix': lambda s: s.is_prefix(s), 'one_level': lambda s: s.one_level(),
+        'child': lambda s: s.child(0), 'transform': lambda s: s.transform(lambda x: x, lambda x: x),
+        'broadcast': lambda s: s.broadcast_to_common_suffix(s), 'kind-type': lambda s: (s.kind, s.type, s.num_children),
+    }
+    fails = []
+    for label, st in states:
+        for mname, m in methods.items():
+            pid = os.fork()
+            if pid == 0:
+                try:
+                    devnull = os.open(os.devnull, os.O_WRONLY)
+                    os.dup2(devnull, 2)
+                    signal.alarm(30)
+                    s = optree.PyTreeSpec.__new__(optree.PyTreeSpec)
+                    s.__setstate__(st)
+                    m(s)
+                except BaseException:   # noqa: BLE001
+                    pass
+                finally:
+                    os._exit(0)
+            _, status = os.waitpid(pid, 0)
+            if os.WIFSIGNALED(status) and os.WTERMSIG(status) != signal.SIGALRM:
+                fails.append({'key': f'hostile-state-crash-{mname}', 'what': f'treespec restored by __setstate__ from the state of '
+                              f'{t!r} with {label}: {mname} ended the interpreter with signal {os.WTERMSIG(status)}',
+                              'state': repr(st)[:400]})
+                break       # one report per state
     return fails
 
 
